@@ -176,8 +176,8 @@ ORACLES = [
         check_history,
         classify=classify,
         known_models=KNOWN_MODELS,
-        quick=96,
-        thorough=200,
+        quick=160,
+        thorough=1200,
         shrink_seconds=240,
     ),
     Oracle(
@@ -186,7 +186,7 @@ ORACLES = [
         check_history,
         classify=classify,
         quick=0,
-        thorough=8,
+        thorough=40,
         shrink_seconds=240,
     ),
     Oracle(
@@ -200,7 +200,7 @@ ORACLES = [
         check_history,
         classify=classify,
         quick=0,
-        thorough=3,
+        thorough=10,
         shrink_seconds=240,
     ),
     Oracle(
